@@ -43,6 +43,11 @@ class CopyPropagate:
             ):
                 # direct assignment: x = y
                 # substitute all occurences of this definition of `x` with `y`
+                # this is only valid if `y` still holds the copied value at
+                # every use of `x`; conservatively require that `y` is never
+                # redefined (`x = y; y = y + 1; return x` must not become `return y`)
+                if len(def_use.name_to_defs.get(d.site.expr.name, ())) > 1:
+                    continue
                 if len(def_use.uses[d]) > 0:
                     # optimization: only propagate if there is at least one use
                     prop[d] = d.site.expr
